@@ -96,7 +96,8 @@ def main():
             ('store', 'C17'): ['probe:evict', 'probe:evicted-frame-previously-addressed', 'probe:served-after-heal', 'probe:access-while-stale',
                                'probe:generator-advanced-between-other-ops', 'probe:export-and-reopen', 'fault:fired-oserror', 'fault:fired-vanish',
                                'fault:fs-replace_older', 'fault:fs-truncate', 'fault:fs-delete', 'fault:stale-read-raised', 'export-config:default', 'export-config:default_noindex',
-                               'export-config:bare', 'probe:store-read-or-written-by-several-workers'],
+                               'export-config:bare', 'probe:store-read-or-written-by-several-workers', 'fault:fired-read-error',
+                               'probe:read-failed-after-earlier-members-were-read'],
             ('pool', 'C18'): ['probe:out-of-order-completion', 'probe:several-tasks-in-flight', 'pool:completed-at-submit-time', 'pool:chunked-map',
                               'fault:worker-crash-surfaced', 'fault:task-failure-surfaced', 'fault:unpicklable-surfaced'],
             ('pool', 'C18T'): ['probe:pre-empted-inside-task', 'pool:lock-contention', 'pool:thread-switches', 'fault:thread-stalled-inside-state-writing-function',
